@@ -1,6 +1,8 @@
 package main
 
 import (
+	"math/rand"
+	"sort"
 	"encoding/json"
 	"flag"
 	"fmt"
@@ -153,6 +155,9 @@ func cmdCore(args []string) int {
 	if *n == 0 {
 		*n = def
 	}
+	if *prop == "C19" {
+		return cmdSchemas(*tier, *seed, *driver, *out, *result, *search)
+	}
 	if *search {
 		*n *= 6
 	}
@@ -182,6 +187,156 @@ func cmdCore(args []string) int {
 	}
 	if len(res.Disagreements) > 0 || len(res.Failures) > 0 {
 		return 1
+	}
+	return 0
+}
+
+// cmdSchemas: the shipped schemas (regenerated by amextract) run through the
+// core correspondence with random Add1/Remove1 walks, plus monitors for Require
+// closure and the mutually-Removing groups.
+func cmdSchemas(tier string, seed int64, driver, out, result string, search bool) int {
+	b, err := os.ReadFile("/verif/out/schemas.json")
+	if err != nil {
+		fmt.Println("schemas.json missing (run amextract):", err)
+		return 2
+	}
+	var meta struct {
+		Schemas []struct {
+			Id, Pkg, Name string
+			Names         []string
+			Defs          []map[string]any
+			Groups        map[string][]int
+		} `json:"schemas"`
+		UndefinedRefs []struct {
+			Schema, Name string
+			Kinds        []string
+		} `json:"undefined_refs"`
+		Uncovered []string `json:"uncovered_groups"`
+		Skipped   []string `json:"skipped"`
+	}
+	if err := json.Unmarshal(b, &meta); err != nil {
+		fmt.Println(err)
+		return 2
+	}
+	walks, steps := 6, 40
+	if tier == "thorough" {
+		walks, steps = 60, 80
+	}
+	if search {
+		walks *= 4
+	}
+	var cases []core.Case
+	r := rand.New(rand.NewSource(seed))
+	toInts := func(v any) []int {
+		var o []int
+		if l, ok := v.([]any); ok {
+			for _, x := range l {
+				if f, ok := x.(float64); ok {
+					o = append(o, int(f))
+				}
+			}
+		}
+		return o
+	}
+	for _, s := range meta.Schemas {
+		sch := &core.Schema{Names: append([]string{}, s.Names...)}
+		n := len(s.Names)
+		clip := func(l []int) []int {
+			var o []int
+			for _, x := range l {
+				if x < n {
+					o = append(o, x)
+				}
+			}
+			return o
+		}
+		for _, d := range s.Defs {
+			sch.Defs = append(sch.Defs, core.StateDef{Auto: d["auto"] == true, Multi: d["multi"] == true,
+				Require: toInts(d["require"]), Add: clip(toInts(d["add"])), Remove: clip(toInts(d["remove"])), After: clip(toInts(d["after"]))})
+		}
+		sch.Exc = -1
+		for i, nm := range sch.Names {
+			if nm == "Exception" {
+				sch.Exc = i
+			}
+			if nm == "Healthcheck" || nm == "Heartbeat" {
+				sch.Health = append(sch.Health, i)
+			}
+		}
+		if sch.Exc < 0 {
+			// New() defines Exception; undefined Require refs to it resolve here
+			sch.Exc = n
+			sch.Names = append(sch.Names, "Exception")
+			sch.Defs = append(sch.Defs, core.StateDef{Multi: true})
+		}
+		total := len(sch.Names)
+		for i := range sch.Defs {
+			var rq []int
+			for _, x := range sch.Defs[i].Require {
+				if x < n {
+					rq = append(rq, x)
+				} else if x == n && total > n {
+					// implicit Exception got index n only when it was the first undefined name;
+					// other undefined Require targets can never be met: keep them out of range
+					rq = append(rq, x)
+				} else {
+					rq = append(rq, total+5)
+				}
+			}
+			sch.Defs[i].Require = rq
+		}
+		sch.Alpha = core.ComputeAlpha(sch.Names)
+		var gparts []string
+		for g, l := range s.Groups {
+			gparts = append(gparts, g+":"+core.ShowList(l))
+		}
+		sort.Strings(gparts)
+		line := sch.Line() + " id=" + s.Id + " groups=" + strings.Join(gparts, ";")
+		for w := 0; w < walks; w++ {
+			lines := []string{line}
+			for k := 0; k < steps; k++ {
+				st := r.Intn(total)
+				x := r.Float64()
+				switch {
+				case x < 0.55:
+					lines = append(lines, fmt.Sprintf("add %d", st))
+				case x < 0.9:
+					lines = append(lines, fmt.Sprintf("remove %d", st))
+				case x < 0.95:
+					lines = append(lines, fmt.Sprintf("add %d,%d", st, r.Intn(total)))
+				default:
+					lines = append(lines, fmt.Sprintf("set %d", st))
+				}
+			}
+			cases = append(cases, core.Case{Lines: lines, Tag: s.Pkg[strings.LastIndex(s.Pkg, "asyncmachine-go/")+16:] + "." + s.Name})
+		}
+	}
+	p := &core.Pipeline{Prop: "C19", Seed: seed, Tier: tier, Driver: driver, OutDir: out, Workers: 12, Search: search, Fixed: cases}
+	res := p.Run()
+	// undefined references (other than Require on the built-in Exception)
+	for _, u := range meta.UndefinedRefs {
+		onlyReq := len(u.Kinds) == 1 && u.Kinds[0] == "require"
+		if u.Name == "Exception" && onlyReq {
+			continue
+		}
+		file := out + "/C19-undefined-" + strings.ReplaceAll(strings.ReplaceAll(u.Schema, "/", "_"), ".", "_") + "-" + u.Name + ".txt"
+		os.WriteFile(file, []byte(fmt.Sprintf("schema %s references state %q (in %v) which it does not define\n", u.Schema, u.Name, u.Kinds)), 0o644)
+		res.Failures = append(res.Failures, core.FailRec{Prop: "C19", Finding: "C19-mixin-undefined-refs:" + u.Schema,
+			Msg: fmt.Sprintf("schema %s references undefined state %s (%v)", u.Schema, u.Name, u.Kinds), File: file})
+	}
+	res.Extra = map[string]any{"schemas": len(meta.Schemas), "uncovered_groups": meta.Uncovered, "skipped": meta.Skipped}
+	jb, _ := json.MarshalIndent(res, "", " ")
+	if result != "" {
+		os.WriteFile(result, jb, 0o644)
+	}
+	fmt.Printf("schemas=%d cases=%d evaluations=%d disagreements=%d failures=%d wall=%.1fs\n", len(meta.Schemas), res.Cases, res.Evaluations, len(res.Disagreements), len(res.Failures), res.WallS)
+	for _, d := range res.Disagreements {
+		if d.File != "" {
+			fmt.Printf("DISAGREE %s line %d: %s\n", d.File, d.Line, d.Op)
+		}
+	}
+	for _, f := range res.Failures {
+		fmt.Printf("MONITOR-FAIL finding=%q %s (%s)\n", f.Finding, f.Msg, f.File)
 	}
 	return 0
 }
